@@ -24,33 +24,36 @@ def register(w):
     C.register(w, {
         "key": f"{F}::lambda_unwrap",
         "params": {"lam": "py"},
-        "requires": [],
+        "requires": ["wf(lam)", "module_has_stmt(lam)"],
         # a Lambda is returned as is; a Module whose first statement is Expr(Lambda) is unwrapped;
         # anything else raises
         "raises": {"Exception": "not is_lambda_or_wrapped(lam)"},
-        "ensures": ["isinstance(result, ast.Lambda)", "same(result, unwrap_spec(lam))"],
+        "ensures": ["isinstance(result, ast.Lambda)", "same(result, unwrap_spec(lam))", "wf(result)"],
+        "fuel": 6,
         "properties": ["C02"],
     })
     C.register(w, {
         "key": f"{F}::lambda_body",
         "params": {"lam": "py"},
+        "requires": ["wf(lam)", "module_has_stmt(lam)"],
         "raises": {"Exception": "not is_lambda_or_wrapped(lam)"},
-        "ensures": ["same(result, unwrap_spec(lam).body)"],
+        "ensures": ["same(result, lambda_body_of(lam))"],
         "properties": ["C02"],
     })
     C.register(w, {
         "key": f"{F}::lambda_args",
         "params": {"lam": "py"},
+        "requires": ["wf(lam)", "module_has_stmt(lam)"],
         "raises": {"Exception": "not is_lambda_or_wrapped(lam)"},
-        "ensures": ["same(result, unwrap_spec(lam).args)"],
+        "ensures": ["same(result, lambda_args_of(lam))"],
         "properties": ["C02"],
     })
     C.register(w, {
         "key": f"{F}::lambda_build",
         "params": {"args": "py", "l_expr": "py"},
         "requires": ["isinstance(args, str) or isinstance(args, list)"],
-        "ensures": ["same(result, ast.Lambda(ast.arguments([], arg_nodes(names_of(args)), None, [], "
-                    "[], None, []), l_expr))"],
+        "ensures": ["same(result, ast.Lambda(ast.arguments([], [ast.arg(x, None) for x in "
+                    "names_of(args)], None, [], [], None, []), l_expr))"],
         "fresh": "shallow",
         "properties": ["C02", "C06"],
     })
@@ -65,15 +68,15 @@ def register(w):
     C.register(w, {
         "key": f"{F}::lambda_test",
         "params": {"lam": "py", "nargs": "py"},
-        "requires": ["nargs is None or isinstance(nargs, int)"],
-        "ensures": ["iff(result, is_lambda_or_wrapped(lam) and "
-                    "(nargs is None or len(unwrap_spec(lam).args.args) == nargs))"],
+        "requires": ["nargs is None or isinstance(nargs, int)", "wf(lam)"],
+        "ensures": ["iff(result, wrapped1(lam) and (nargs is None or lambda_nargs(lam) == nargs))"],
         "ret": "bool",
         "properties": ["C02"],
     })
     C.register(w, {
         "key": f"{F}::lambda_is_identity",
         "params": {"lam": "py"},
+        "requires": ["wf(lam)"],
         "ensures": ["iff(result, is_identity_lambda(lam))"],
         "ret": "bool",
         "properties": ["C02", "C14"],
@@ -81,6 +84,7 @@ def register(w):
     C.register(w, {
         "key": f"{F}::lambda_is_true",
         "params": {"lam": "py"},
+        "requires": ["wf(lam)"],
         "ensures": ["iff(result, is_true_lambda(lam))"],
         "ret": "bool",
         "properties": ["C02"],
@@ -88,16 +92,18 @@ def register(w):
     C.register(w, {
         "key": f"{F}::lambda_call",
         "params": {"args": "py", "lam": "py"},
-        "requires": ["isinstance(args, str) or isinstance(args, list)"],
+        "requires": ["isinstance(args, str) or isinstance(args, list)", "wf(lam)",
+                     "module_has_stmt(lam)"],
         "raises": {"Exception": "not is_lambda_or_wrapped(lam)"},
-        "ensures": ["same(result, ast.Call(unwrap_spec(lam), name_nodes(names_of(args)), []))"],
+        "ensures": ["same(result, ast.Call(unwrap_spec(lam), [ast.Name(x) for x in names_of(args)], "
+                    "[]))"],
         "fresh": "shallow",
         "properties": ["C02"],
     })
     C.register(w, {
         "key": f"{F}::rewrite_func_as_lambda",
         "params": {"f": "py"},
-        "requires": ["isinstance(f, ast.FunctionDef)"],
+        "requires": ["isinstance(f, ast.FunctionDef)", "wf(f)"],
         "raises": {"ValueError": "not single_return(f)"},
         "raises_iff": {"ValueError": "not single_return(f)"},
         "ensures": ["same(result, ast.Lambda(f.args, the_return(f).value))"],
